@@ -29,6 +29,11 @@ Check(x) ==
            f == Parse(kd, FALSE, x) IN
        /\ Assert(s.ok => (f.ok /\ f.h = s.h /\ f.end = s.end), <<"strict accepts a subset with the same result", x, kd>>)
        /\ Assert((f.ok /\ ~s.ok) => RawTooLong(kd, x), <<"strict rejects only over-long raw block hashes", x, kd>>)
+  (* the fold forms used on traces agree with the recursive reference forms, from every start *)
+  /\ \A i \in 1..(Len(x) + 2) : \A dg \in BOOLEAN :
+       Assert(SpanEnd(x, i, dg) = SpanEndRec(x, i, dg), <<"SpanEndDefsAgree", x, i, dg>>)
+  /\ \A base \in 0..Len(x) : \A n \in {1, CAP2S, CAP1} : \A nm \in BOOLEAN : \A st \in BOOLEAN :
+       Assert(PBlockHash(x, base, n, nm, st) = PBlockHashRec(x, base, n, nm, st), <<"PBlockHashDefsAgree", x, base, n, nm, st>>)
   /\ \A g \in BOOLEAN :
        LET acc(n, d) == Parse([norm |-> n, long |-> g, dual |-> d], TRUE, x).ok IN
        Assert(acc(FALSE, FALSE) = acc(TRUE, FALSE) /\ acc(FALSE, FALSE) = acc(FALSE, TRUE), <<"under strict all kinds accept the same texts", x, g>>)
